@@ -49,8 +49,6 @@ def _in_known_region(site, text, stored):
     if region_active('c13_multiline_in_settings_or_raw_site') and docs.has_char(stored, '\n') and (
             site in SETTINGS_NOTE_SITES or site in RAW_QUOTE_SITES or site in ('table_property', 'column_property', 'string_default')):
         return True
-    if region_active('c13_unicode_blank_line') and SITES[site][2] and docs.has_unicode_blank_line(text):
-        return True
     if region_active('c13_default_bool_word') and site == 'string_default' and _is_bool_word(stored):
         return True
     return False
@@ -203,8 +201,6 @@ def norm_lemma(K):
     def body(a):
         from pydbml.tools import strip_empty_lines, remove_indentation
         x = text_of(a, 'c', K)
-        if K >= 4 and region_active('c13_unicode_blank_line') and docs.has_unicode_blank_line(x):
-            return ''       # open finding: a line of non-ASCII whitespace next to an indented line; reachable from K=4 (' !\n\xa0'), so nothing is excluded at K=3
         try:
             y = remove_indentation(strip_empty_lines(x))
             z = remove_indentation(strip_empty_lines(y))
